@@ -49,24 +49,43 @@ var graphOrder = []string{"direct", "chain", "cycle", "parents", "shared", "deep
 // sCatalogue: every expression with <= k leaves over the leaf kinds x graphs x queries, default mode
 // (untyped literal namespaces), without recursion through `not`.
 func sCatalogue(k int, leaves []int) []*Scn {
-	memo := map[int][]*Expr{}
 	gs := graphs()
 	var out []*Scn
-	for n := 1; n <= k; n++ {
-		for _, e := range exprs(n, leaves, memo) {
-			if e.recNeg(false) {
-				continue
-			}
-			cfg := mkCfg(e, 0, false)
-			for _, gname := range graphOrder {
-				out = append(out, &Scn{Cfg: cfg, Graph: gname, Tuples: gs[gname], Query: tid("o1", "p", "u")})
-				if gname == "shared" {
-					out = append(out, &Scn{Cfg: cfg, Graph: gname, Tuples: gs[gname], Query: tid("o1", "b", "u")})
-				}
+	for _, cfg := range cfgCatalogue(k, leaves, 0, false) {
+		for _, gname := range graphOrder {
+			out = append(out, &Scn{Cfg: cfg, Graph: gname, Tuples: gs[gname], Query: tid("o1", "p", "u")})
+			if gname == "shared" {
+				out = append(out, &Scn{Cfg: cfg, Graph: gname, Tuples: gs[gname], Query: tid("o1", "b", "u")})
 			}
 		}
 	}
 	return out
+}
+
+// cfgCatalogue: every expression with <= k leaves over the leaf kinds, without recursion through `not`.
+func cfgCatalogue(k int, leaves []int, typed int, strict bool) []*CfgSpec {
+	var out []*CfgSpec
+	for n := 1; n <= k; n++ {
+		ref := CfgRef{Leaves: leaves, N: n, Typed: typed, Strict: strict}
+		cnt := len(exprs(n, leaves, memoFor(leaves)))
+		for i := 0; i < cnt; i++ {
+			ref.Idx = i
+			c := ref.Resolve()
+			if c.Expr.recNeg(false) {
+				continue
+			}
+			out = append(out, c)
+		}
+	}
+	return out
+}
+
+func memoFor(leaves []int) map[int][]*Expr {
+	k := fmt.Sprint(leaves)
+	if exprMemo[k] == nil {
+		exprMemo[k] = map[int][]*Expr{}
+	}
+	return exprMemo[k]
 }
 
 // SetNamespaces swaps the literal namespaces of a (non-strict) world at run time.
